@@ -181,4 +181,10 @@ QuickCombo(c) ==
           <<TRUE, TRUE, TRUE, FALSE, 0, 32>>, <<FALSE, FALSE, TRUE, FALSE, 512, 48>>, <<TRUE, FALSE, TRUE, TRUE, 0, 48>>,
           <<FALSE, FALSE, TRUE, TRUE, 512, 128>>, <<TRUE, TRUE, TRUE, TRUE, 512, 128>>, <<FALSE, TRUE, TRUE, FALSE, 0, 32>> }
 QuickCfgs == {c \in AllCfgs : QuickCombo(c)}
+
+\* thorough replay binary (feature "full"): all 32 settings combinations, each with one base allocator flavour in rotation,
+\* plus the quick tuples -- keep in sync with harness/replay/src/main.rs
+B2N(b) == IF b THEN 1 ELSE 0
+ComboIndex(c) == 16 * B2N(c.up) + 8 * B2N(c.ga) + 4 * B2N(c.dealloc) + 2 * B2N(c.shrinks) + B2N(c.mcs = 512)
+FullCfgs == QuickCfgs \cup {c \in AllCfgs : c.hs = <<32, 48, 128>>[(ComboIndex(c) % 3) + 1]}
 =============================================================================
